@@ -8,11 +8,11 @@ package main
 // An obligation sees exactly the facts emitted before it.
 
 import (
-	"os"
-	"runtime"
 	"fmt"
 	"go/token"
 	"go/types"
+	"os"
+	"runtime"
 	"sort"
 	"strings"
 	"sync"
@@ -75,6 +75,7 @@ type Exec struct {
 	entered     map[int]bool   // loop headers (block index) entered by the top frame in this pass
 	enteredPrev map[int]bool   // ... in earlier passes: loop ordinals count only these
 	knownType   map[string]int // term of an interface value -> its dynamic type id (per-case units)
+	atBackEdge  func(ex *Exec, fr *frame, lr *loopRec, edge int, g string, st *State)
 	onCall      func(fr *frame, c *ssa.CallCommon, callee *ssa.Function, args []Val, st *State, guard string) (handled bool, res Val)
 	maxInline   int
 }
@@ -866,6 +867,10 @@ func (ex *Exec) backEdge(fr *frame, h *ssa.BasicBlock, g string, s *State) {
 	edgeTag := ""
 	if lr.nBack > 1 {
 		edgeTag = fmt.Sprintf(".%d", lr.nBack) // a second back edge (continue) gets its own obligations
+	}
+	// property hooks first: their obligations must not lean on the invariants about to be asserted on this edge
+	if ex.atBackEdge != nil && fr.top {
+		ex.atBackEdge(ex, fr, lr, lr.nBack, g, s)
 	}
 	for i, inv := range lr.invs {
 		env := ex.specEnv(fr, s, lr)
